@@ -153,9 +153,15 @@ def run(ctx):
     ini = p.func("AbstractIter", "__init")
     ctx.touch(ini)
     irets = [r for r in walk_own(ini.node) if isinstance(r, ast.Return)]
+    def _empty_iter(e):
+        """iter(()) / iter([]): nothing is admitted at all (that the condition for it is the right one is C06's subject) - no item,
+        hence no order and no grouping to get wrong"""
+        return isinstance(e, ast.Call) and norm(e.func) == "iter" and len(e.args) == 1 and isinstance(e.args[0], (ast.Tuple, ast.List)) \
+            and not e.args[0].elts and not e.keywords
     bad = [r for r in irets if not (isinstance(resolve_local(ini, r.value), ast.Call)
-                                    and norm(resolve_local(ini, r.value).func) == "%s._iter" % ini.selfname)]
-    if not irets or bad:
+                                    and norm(resolve_local(ini, r.value).func) == "%s._iter" % ini.selfname)
+           and not _empty_iter(r.value)]
+    if not irets or bad or all(_empty_iter(r.value) for r in irets):
         ctx.viol("I2", ini, bad[0] if bad else ini.node, "AbstractIter.__init returns `%s` instead of the strategy generator "
                  "self._iter(...): on that path the items are not produced by the iterator's own strategy (order, grouping)" % (
                      norm(bad[0].value) if bad and bad[0].value is not None else "nothing"), construct="AbstractIter.__init return")
